@@ -249,12 +249,15 @@ class Explorer(object):
         self.edges = 0                 # distinct edges of the schedule tree that were executed
         self.by_preemptions = {}
         self.capped = False
+        self.prefix_checks = 0         # executions whose replayed prefix was compared with the parent's
     def _one(self, item, visit):
         cost0, prefix, fp, fplen = item
         ex = self.make(prefix)            # a completed Execution
         self.executions += 1
-        if fp is not None and ex.fingerprint(fplen) != fp:
-            raise core.HarnessError('C22: replaying prefix %r diverged from the execution that scheduled it' % (prefix,))
+        if fp is not None:
+            self.prefix_checks += 1
+            if ex.fingerprint(fplen) != fp:
+                raise core.HarnessError('C22: replaying prefix %r diverged from the execution that scheduled it' % (prefix,))
         self.edges += len(ex.decisions) - max(0, len(prefix) - 1)
         npre = ex.preemptions()
         self.by_preemptions[npre] = self.by_preemptions.get(npre, 0) + 1
